@@ -73,6 +73,7 @@ type worker struct {
 }
 
 type Pool struct {
+	Deadline time.Time // if set, Map stops handing out jobs after it
 	n        int
 	exe      string
 	env      []string
@@ -229,6 +230,9 @@ func (p *Pool) Map(kind string, jobs []any, timeout time.Duration, handle func(J
 	}
 	go func() {
 		for i, j := range jobs {
+			if !p.Deadline.IsZero() && time.Now().After(p.Deadline) {
+				break // the check's internal deadline has passed: jobs not yet handed out are dropped (callers report exhaustive:false)
+			}
 			ch <- item{i, j}
 		}
 		close(ch)
